@@ -79,7 +79,8 @@ structure Record where
 
 /-- `set._assign(keys, value, d)` called with `record=True`.  Each successful top-level call
 appends exactly one record (at the leaf, or at the first missing intermediate key after which
-`record=False`).  A non-dict met on the way raises TypeError and leaves `d` untouched. -/
+`record=False`).  A non-dict met on the way raises TypeError and leaves `d` untouched
+(the record is appended only after the write succeeded). -/
 def assign : List Key → Val → Dict → Except Err (Dict × Record)
   | [], _, _ => .error .index_error                    -- `keys[0]` of an empty sequence; `str.split` never returns []
   | [k], v, d =>
@@ -161,9 +162,24 @@ def assignAll : List (List Key × Val) → Dict → Dict × List Record × Optio
           (d'', r :: rs, e)
 
 /-- `set.__init__`: the configuration after construction, the record list, and the exception raised (if any).
-CURRENT TREE: an exception leaves the earlier assignments applied. -/
+When an assignment raises, the `except BaseException` handler runs `self.__exit__(None, None, None)` over the
+records of the completed assignments and re-raises (an exception from that `__exit__` would propagate instead). -/
 def init (assigns : List (List Key × Val)) (d : Dict) : Dict × List Record × Option Err :=
-  assignAll assigns d
+  match assignAll assigns d with
+  | (d', rs, none) => (d', rs, none)
+  | (d', rs, some e) =>
+      match exitAll rs.reverse d' with
+      | (d'', none) => (d'', rs, some e)
+      | (d'', some e') => (d'', rs, some e')
+
+/-- read a value by an already canonical path (`d[k0][k1]…`) -/
+def getPath : List Key → Dict → Option Val
+  | [], _ => none
+  | [k], d => lookup d k
+  | k :: k2 :: ks, d =>
+      match lookup d k with
+      | some (.dict sub) => getPath (k2 :: ks) sub
+      | _ => none
 
 /-- Programs that use `config.set` as a context manager (well nested by construction). -/
 inductive Script where
@@ -193,7 +209,7 @@ def run : Script → St → St × Option Err
       | (st', some e) => (st', some e)
   | .withSet assigns body, st =>
       match init assigns st.cfg with
-      | (c1, _, some e) => ({ st with cfg := c1 }, some e)        -- `set(...)` raised: the body never runs, `__exit__` never runs
+      | (c1, _, some e) => ({ st with cfg := c1 }, some e)        -- `set(...)` raised (after rolling back): the body never runs
       | (c1, recs, none) =>
           match run body { st with cfg := c1 } with
           | (st2, out) =>
